@@ -52,6 +52,11 @@
 (*                         keeps its power until the next staking epoch,    *)
 (*                         its stakers' active USD value becomes 0          *)
 (*                         (changes the environment only)                   *)
+(*   UpdateParams [tax, reward]  MsgUpdateParams of x/feedistribution (new    *)
+(*                         community tax) and of x/exomint (new epoch       *)
+(*                         reward), authority = gov module account,         *)
+(*                         through the app's message router (changes the    *)
+(*                         environment only)                                *)
 (*   EndBlock   []         app.EndBlock + Commit                            *)
 (*   BeginBlock [ended]    app.BeginBlock of the next block at a time that  *)
 (*                         ends the epoch identifiers `ended`               *)
@@ -66,6 +71,8 @@ CONSTANTS
                \*   "L11": (defect, fixed in 311e836) adds the WHOLE staker share to the community pool
                \*   "ZS":  (never in the tree; guard only) early return when the operator's total staker power is zero,
                \*          so that the staker share is booked to nobody
+               \*   "TX":  (never in the tree; guard only) AllocateTokens returns when the validators' part fees*(1-tax)
+               \*          is zero, after the transfer and before the community pool is credited
                \*   "L27": (defect, fixed in 9ad8de4) one list entry and one payment per (AVS, asset, staker), the power
                \*          map overwritten by the last entry while the total sums every entry
 
@@ -141,6 +148,9 @@ AllocateTokensD(dv, st, e) ==
      THEN [st |-> [st0 EXCEPT !.cp = NAdd(st0.cp, fees)], panic |-> FALSE]
      ELSE
        LET mult == DecMulTrunc(fees, NSub(One, e.tax), PREC)  \* feesCollected.MulDecTruncate(1 - tax)
+           \* "TX": a seeded omission - returning when the validators' part is zero, after the transfer and
+           \* before the community pool is credited
+           skip == "TX" \in dv /\ NIsZero(mult)
            step(acc, v) ==
              IF v.o = "" THEN acc                             \* reverse lookup failed: skipped, stays in `remaining`
              ELSE LET pf     == DecQuoTrunc(DecFromInt(v.pw, PREC), DecFromInt(e.ltp, PREC), PREC)
@@ -149,7 +159,8 @@ AllocateTokensD(dv, st, e) ==
                       rm     == NSub(acc.rem, reward)
                   IN [st |-> r.st, rem |-> rm, panic |-> acc.panic \/ r.panic \/ NIsNeg(rm)]
            res == FoldLeft(step, [st |-> st0, rem |-> fees, panic |-> FALSE], e.vals)
-       IN [st |-> [res.st EXCEPT !.cp = NAdd(res.st.cp, res.rem)], panic |-> res.panic]
+       IN IF skip THEN [st |-> st0, panic |-> FALSE]
+          ELSE [st |-> [res.st EXCEPT !.cp = NAdd(res.st.cp, res.rem)], panic |-> res.panic]
 
 (***************************************************************************)
 (* x/exomint/keeper/impl_epochs_hooks.go : AfterEpochEnd                    *)
@@ -179,7 +190,7 @@ ApplyD(dv, st, e, ev, a) ==
   CASE ev = "FeeIncome"  -> [st |-> [st EXCEPT !.fc = NAdd(st.fc, a.x)], panic |-> FALSE]
     [] ev = "Burn"       -> [st |-> [st EXCEPT !.supply = NSub(st.supply, a.x)], panic |-> FALSE]
     [] ev = "BeginBlock" -> BeginBlockD(dv, st, e, a.ended)
-    [] OTHER             -> [st |-> st, panic |-> FALSE]      \* Delegate, Jail, EndBlock
+    [] OTHER             -> [st |-> st, panic |-> FALSE]      \* Delegate, Jail, UpdateParams, EndBlock
 
 Apply(st, e, ev, a) == ApplyD(DEVIATIONS, st, e, ev, a)
 
